@@ -81,6 +81,7 @@ QSet == IF Thorough THEN 0..65535
         ELSE ResCorners \cup {4, 5, 15, 16, 17, 255, 256, 257, 511, 512, 513, 959, 961, 32766, 32769, 65534} \cup {q \in 0..65535 : q % 61 = 7}
 \* tempi as fractions <<bn, bd>> (integers, hundredths, thousandths)
 Bpms == << <<1, 1>>, <<101, 100>>, <<60, 1>>, <<120, 1>>, <<12050, 100>>, <<120001, 1000>>, <<14285, 100>>, <<333333, 1000>>, <<99999, 100>>, <<1000, 1>> >>
+ResInv == IF Thorough THEN ResCorners \cup {5, 7, 48, 120, 192, 384, 1920, 3840, 9600, 16383, 16384, 32766, 40000} ELSE ResCorners
 BpmIdx == IF Thorough THEN 1..Len(Bpms) ELSE {1, 2, 5, 6, 9, 10}
 Big2p28 == BnPow2(28)
 TickSamples == {<<>>, <<1>>, <<2>>, <<3>>, <<7>>, <<95>>, <<96>>, <<97>>, <<959>>, <<960>>, <<961>>, BnOfNat(1000000),
@@ -92,8 +93,8 @@ Init == Sanity /\ kind = "init" /\ x = 0 /\ y = 0
 Next == \/ /\ kind = "init"
            /\ \/ kind' = "preword" /\ x' \in 0..255 /\ y' = 0
               \/ kind' = "preres" /\ x' \in {q \div 256 : q \in QSet} /\ y' = 0
-              \/ kind' = "preinv" /\ x' \in ResCorners /\ y' = 0
-              \/ kind' = "preinv2" /\ x' \in ResCorners /\ y' = 0
+              \/ kind' = "preinv" /\ x' \in ResInv /\ y' = 0
+              \/ kind' = "preinv2" /\ x' \in ResInv /\ y' = 0
               \/ kind' = "prekey" /\ x' \in KsSfs /\ y' = 0
         \/ kind = "preword" /\ kind' = "word" /\ y' \in 0..255 /\ x' = x
         \/ kind = "preres" /\ kind' = "res" /\ y' \in {q \in QSet : q \div 256 = x} /\ x' = x
